@@ -86,11 +86,19 @@ def impl_run(sc):
             acc.reset()
         elif kind == "zero_rows":
             acc = g.acc_stats(blocks[0][:0])
+        if kind == "buffer":
+            # the rows are streamed through one re-used buffer (same object, same shape, other content every time)
+            buf = np.zeros((1, sc["D"]), dtype=np.asarray(xp).dtype)
+            for b in blocks:
+                for row in np.asarray(b):
+                    buf[0] = row
+                    acc += g.acc_stats(buf)
+            return gen.stats_impl(acc)
         for b in blocks:
             acc += g.acc_stats(b)
         return gen.stats_impl(acc)
 
-    o["fold_fresh"] = [core.impl(fold_from_fresh, k) for k in ("fresh", "reset", "zero_rows")]
+    o["fold_fresh"] = [core.impl(fold_from_fresh, k) for k in ("fresh", "reset", "zero_rows", "buffer")]
     o["fold_add"] = core.impl(fold_add)
     o["fold_iadd"] = core.impl(fold_iadd)
     o["dask"] = core.impl(dask_stats)
@@ -229,6 +237,18 @@ def oracle(sc):
     f = core.impl(from_fresh)
     if isinstance(f, core.ImplError) or not gen.stats_close(f, whole, 1e-9, 1e-9):
         return {"sig": "iadd-into-empty-container-differs", "what": f"+= of the blocks {sc['sizes']} into a fresh GMMStats: {f!r} vs whole {whole}"}
+    def streamed():
+        from bob.learn.em import GMMStats
+
+        acc, buf = GMMStats(len(w), x.shape[1]), np.zeros((1, x.shape[1]), dtype=x.dtype)
+        for row in x[perm]:
+            buf[0] = row  # one re-used buffer: same object and shape, other content at every call
+            acc += g.acc_stats(buf)
+        return gen.stats_impl(acc)
+
+    f = core.impl(streamed)
+    if isinstance(f, core.ImplError) or not gen.stats_close(f, whole, 1e-9, 1e-9):
+        return {"sig": "streaming-through-a-buffer-differs", "what": f"+= of acc_stats(buffer) row by row: {f!r} vs whole {whole}"}
     for iadd in (False, True):
         f = core.impl(folded, iadd)
         if isinstance(f, core.ImplError) or not gen.stats_close(f, whole, 1e-9, 1e-9):
